@@ -159,8 +159,20 @@ void h_clear(void) {
   build();
   Tree_Resize(t, 0);
   ASSERT(t->root == NULL && t->nitems == 0, "[C03] resize(0) empties the Tree");
-  ASSERT(cv_retired == 2 * SH_N && cv_frees == SH_N, "[C05] clearing finalises every key and value once and frees every entry once");
+  ASSERT(cv_retired == 2 * SH_N && cv_frees == SH_N, "[C05][C06] clearing finalises every key and value once and frees every entry once");
   Tree_Set(t, kx, vx);
   ASSERT(wf_rb(1), "[C03] a drained Tree can be refilled");
   COVER(1, "clear and refill");
+}
+
+/* C01: the container's Mark instance hands every element to the collector's callback, once */
+static int cv_mk_calls, cv_mk_hits; static var cv_mk_watch, cv_mk_gc;
+static void cv_mark_cb(var g, void* p) { cv_mk_calls++; if (g != cv_mk_gc) cv_mk_calls += 100; if (p == cv_mk_watch) cv_mk_hits++; }
+void h_mark(void) {
+  build();
+  size_t gh_i = nondet_ulong(); __CPROVER_assume(SH_N == 0 || gh_i < SH_N); bool watch_val = nondet_bool();
+  cv_mk_gc = &KX; cv_mk_watch = SH_N ? (watch_val ? (var)&POOL[gh_i].v : (var)&POOL[gh_i].k) : NULL;
+  Tree_Mark(t, cv_mk_gc, cv_mark_cb);
+  ASSERT(cv_mk_calls == 2 * SH_N && (SH_N == 0 || cv_mk_hits == 1), "[C01] Tree_Mark passes every key and every value to the callback exactly once");
+  COVER(1, "mark done");
 }
